@@ -500,10 +500,13 @@ func c20Exec(op string) (string, *Violation) {
 		// the box requested is the box given: OSM coordinates have seven decimals, and each value of the query
 		// must read back as the argument
 		f7 := func(x float64) string { return strconv.FormatFloat(x, 'f', 7, 64) }
-		wantItems = append(wantItems, "bbox="+f7(fl[0])+","+f7(fl[1])+","+f7(fl[2])+","+f7(fl[3]))
+		bboxItem := "bbox=" + f7(fl[0]) + "," + f7(fl[1]) + "," + f7(fl[2]) + "," + f7(fl[3])
 		for _, it := range items {
 			if strings.HasPrefix(it, "bbox=") {
 				ps := strings.Split(strings.TrimPrefix(it, "bbox="), ",")
+				if len(ps) == 4 {
+					bboxItem = it // the text form is free, the four values are what is compared
+				}
 				for k := 0; k < 4 && k < len(ps); k++ {
 					if v, err := strconv.ParseFloat(ps[k], 64); err != nil || v != fl[k] {
 						sig := "bbox-differs"
@@ -515,6 +518,7 @@ func c20Exec(op string) (string, *Violation) {
 				}
 			}
 		}
+		wantItems = append(wantItems, bboxItem)
 	case "NotesSearch":
 		wantItems = append(wantItems, "q="+url.QueryEscape(query))
 	case "ChangesetWithDiscussion":
